@@ -555,6 +555,8 @@ def winstart_job(cs):
 
 add("C10", lambda tier: [winredir_job()])
 WINSTART_PROPS = ("C04", "C10", "C11", "C03", "C05")
+add("C06", lambda tier: [win_job(4, "signal")])
+add("C01", lambda tier: [win_job(4, "signal")])
 for _p in WINSTART_PROPS:
     add(_p, lambda tier: [winstart_job(c) for c in range(4)])
     META[_p]["units"] = list(META[_p]["units"]) + [
